@@ -19,7 +19,7 @@ def obedient_child(running, log_path=None):
 # ---------------------------------------------------------------------------
 # C29: device classes that a spawned child can re-import by name
 # ---------------------------------------------------------------------------
-C29_FORMATS = ["B", "H", "I", "Q", "b", "h", "i", "q"]
+C29_FORMATS = ["B", "H", "I", "Q", "b", "h", "i", "q", "x", "x"]
 
 
 def _c29_formats(k):
